@@ -35,8 +35,8 @@ for l in open('/verif/properties.jsonl'):
 PY
 )
   $BIN/llvm-cov report $objs -instr-profile=$COVD/$p.profdata $files 2>/dev/null \
-    | awk 'NR<3 || /repo|TOTAL/' | sed 's#/repo/##' | awk '{print $1, "regions", $4, "functions", $7, "lines", $10}' > coverage/$p.txt
+    | awk '$1 !~ /^-+$/ && NR>1 {print $1, "regions", $4, "functions", $7, "lines", $10}' > coverage/$p.txt
   $BIN/llvm-cov show $objs -instr-profile=$COVD/$p.profdata $files --show-line-counts-or-regions=false 2>/dev/null \
     | grep -E "^/repo/.*:$|^ +[0-9]+\| +0\|" | sed 's#^/repo/##' > coverage/$p.uncovered.txt
-  echo "== $p"; tail -n +3 coverage/$p.txt 
+  echo "== $p"; tail -n 1 coverage/$p.txt 
 done
